@@ -10,9 +10,17 @@
 #include "xmlcanon.h"
 
 #include "QXmppBindIq.h"
+#include "QXmppHash.h"
+#include "QXmppJingleData.h"
+#include "QXmppMixInvitation.h"
+#include "QXmppOutOfBandUrl.h"
+#include "QXmppPubSubAffiliation.h"
+#include "QXmppTrustMessageElement.h"
+#include "QXmppTrustMessageKeyOwner.h"
 #include "QXmppIbbIq.h"
 #include "QXmppSasl_p.h"
 #include "QXmppStanza.h"
+#include "QXmppStreamFeatures.h"
 #include "QXmppStreamManagement_p.h"
 #include "QXmppVersionIq.h"
 #include "Stream.h"
@@ -50,7 +58,7 @@ static std::vector<std::string> tokenize(const std::string &s)
     if (!cur.empty()) out.push_back(cur);
     return out;
 }
-static QString unhexQ(const std::string &h) { return QString::fromUtf8(unhex(h)); }
+static QString unhexQ(const std::string &h) { QByteArray b = unhex(h); return QString::fromUtf8(b.constData(), b.size()); }  // keeps NUL
 
 static bool parseTree(const std::vector<std::string> &t, size_t &i, Tree &out)
 {
@@ -283,11 +291,12 @@ template<class T> static QByteArray serPayload(const Open<T> &o)
 struct ClassEntry {
     std::string name;
     bool iqPayload = false;
+    bool streamChild = false;  // parsed as a child of <stream:stream> (prefix `stream` bound there)
     std::vector<std::string> fieldNames;
     // real parse + serialize + field report; false = rejected by the class's own type check
     std::function<bool(const QDomElement &, QByteArray &, Vals &)> run;
-    // object from values, serialized
-    std::function<QByteArray(const Vals &)> build;
+    // object from values (through the real setters), serialized; also what the object reports before serialization
+    std::function<QByteArray(const Vals &, Vals &)> build;
 };
 
 static Vals smEnableVals(const SmEnable &o) { return { vB(o.resume), vN(o.max) }; }
@@ -312,7 +321,7 @@ static ClassEntry nonza(const std::string &name, std::vector<std::string> fields
         if (!o) return false;
         out = ser(*o); vals = tv(*o); return true;
     };
-    e.build = [fv](const Vals &v) { return ser(fv(v)); };
+    e.build = [fv, tv](const Vals &v, Vals &rep) { T o = fv(v); rep = tv(o); return ser(o); };
     return e;
 }
 template<class T>
@@ -323,7 +332,7 @@ static ClassEntry payload(const std::string &name, std::vector<std::string> fiel
         Open<T> o; o.parseElementFromChild(iq);
         out = serPayload(o); vals = tv(o); return true;
     };
-    e.build = [fv](const Vals &v) { Open<T> o; fv(o, v); return serPayload(o); };
+    e.build = [fv, tv](const Vals &v, Vals &rep) { Open<T> o; fv(o, v); rep = tv(o); return serPayload(o); };
     return e;
 }
 
@@ -372,14 +381,13 @@ static std::vector<ClassEntry> classTable()
     t.push_back(nonza<FastRequest>("FastRequest", { "count", "invalidate" },
         [](const FastRequest &o) { return Vals { o.count ? vO(true, *o.count) : vO(false), vB(o.invalidate) }; },
         [](const Vals &v) { FastRequest o; if (v.at(0).has) o.count = v.at(0).n; o.invalidate = v.at(1).b; return o; }));
-    t.push_back(nonza<Sasl2::StreamFeature>("Sasl2StreamFeature", { "mechanisms", "inline" },
-        [](const Sasl2::StreamFeature &o) {
+    auto sasl2FeatureVals = [](const Sasl2::StreamFeature &o) {
             std::vector<QString> m(o.mechanisms.begin(), o.mechanisms.end());
             return Vals { vL(strList(m)), vR({ o.bind2Feature ? vR(bind2FeatureVals(*o.bind2Feature)) : vA(),
                                                o.fast ? vR(fastFeatureVals(*o.fast)) : vA(),
                                                o.streamResumptionAvailable ? vR({}) : vA() }) };
-        },
-        [](const Vals &v) {
+        };
+    auto sasl2FeatureOf = [](const Vals &v) {
             Sasl2::StreamFeature o;
             for (auto &s : strListOf(v.at(0))) o.mechanisms.push_back(s);
             auto &in = v.at(1).items;
@@ -387,7 +395,8 @@ static std::vector<ClassEntry> classTable()
             if (in.at(1).kind == 'R') o.fast = fastFeatureOf(in.at(1).items);
             o.streamResumptionAvailable = in.at(2).kind == 'R';
             return o;
-        }));
+        };
+    t.push_back(nonza<Sasl2::StreamFeature>("Sasl2StreamFeature", { "mechanisms", "inline" }, sasl2FeatureVals, sasl2FeatureOf));
     t.push_back(nonza<Sasl2::Failure>("Sasl2Failure", { "condition", "text" },
         [](const Sasl2::Failure &o) { return Vals { vO(true, quint64(int(o.condition))), vR({ vS(o.text) }) }; },
         [](const Vals &v) { Sasl2::Failure o; o.condition = Sasl::ErrorCondition(int(v.at(0).n)); o.text = v.at(1).items.at(0).s; return o; }));
@@ -398,7 +407,7 @@ static std::vector<ClassEntry> classTable()
         ClassEntry e; e.name = "ExtendedAddress"; e.fieldNames = { "delivered", "description", "jid", "type" };
         auto tv = [](const QXmppExtendedAddress &a) { return Vals { vB(a.isDelivered()), vS(a.description()), vS(a.jid()), vS(a.type()) }; };
         e.run = [tv](const QDomElement &el, QByteArray &out, Vals &vals) { QXmppExtendedAddress a; a.parse(el); out = ser(a); vals = tv(a); return true; };
-        e.build = [](const Vals &v) { QXmppExtendedAddress a; a.setDelivered(v.at(0).b); a.setDescription(v.at(1).s); a.setJid(v.at(2).s); a.setType(v.at(3).s); return ser(a); };
+        e.build = [tv](const Vals &v, Vals &rep) { QXmppExtendedAddress a; a.setDelivered(v.at(0).b); a.setDescription(v.at(1).s); a.setJid(v.at(2).s); a.setType(v.at(3).s); rep = tv(a); return ser(a); };
         t.push_back(e);
     }
     t.push_back(payload<QXmppBindIq>("BindIq", { "jid", "resource" },
@@ -410,16 +419,108 @@ static std::vector<ClassEntry> classTable()
     t.push_back(payload<QXmppIbbCloseIq>("IbbCloseIq", { "sid" },
         [](const QXmppIbbCloseIq &o) { return Vals { vS(o.sid()) }; },
         [](QXmppIbbCloseIq &o, const Vals &v) { o.setSid(v.at(0).s); }));
+    // ---- Base64 bodies
+    auto vBytes = [](const QByteArray &b) { return vS(QString::fromLatin1(b.constData(), b.size())); };  // keeps NUL
+    t.push_back(nonza<Sasl::Auth>("SaslAuth", { "mechanism", "value" },
+        [vBytes](const Sasl::Auth &o) { return Vals { vS(o.mechanism), vBytes(o.value) }; },
+        [](const Vals &v) { Sasl::Auth o; o.mechanism = v.at(0).s; o.value = v.at(1).s.toLatin1(); return o; }));
+    t.push_back(nonza<Sasl::Challenge>("SaslChallenge", { "value" },
+        [vBytes](const Sasl::Challenge &o) { return Vals { vBytes(o.value) }; },
+        [](const Vals &v) { return Sasl::Challenge { v.at(0).s.toLatin1() }; }));
+    t.push_back(nonza<Sasl::Response>("SaslResponse", { "value" },
+        [vBytes](const Sasl::Response &o) { return Vals { vBytes(o.value) }; },
+        [](const Vals &v) { return Sasl::Response { v.at(0).s.toLatin1() }; }));
+    t.push_back(nonza<Sasl2::Challenge>("Sasl2Challenge", { "data" },
+        [vBytes](const Sasl2::Challenge &o) { return Vals { vBytes(o.data) }; },
+        [](const Vals &v) { return Sasl2::Challenge { v.at(0).s.toLatin1() }; }));
+    t.push_back(nonza<Sasl2::Response>("Sasl2Response", { "data" },
+        [vBytes](const Sasl2::Response &o) { return Vals { vBytes(o.data) }; },
+        [](const Vals &v) { return Sasl2::Response { v.at(0).s.toLatin1() }; }));
+    t.push_back(nonza<Sasl2::Continue>("Sasl2Continue", { "additionalData", "tasks", "text" },
+        [vBytes](const Sasl2::Continue &o) { return Vals { vR({ vBytes(o.additionalData) }), vR({ vL(strList(o.tasks)) }), vR({ vS(o.text) }) }; },
+        [](const Vals &v) { Sasl2::Continue o; o.additionalData = v.at(0).items.at(0).s.toLatin1(); o.tasks = strListOf(v.at(1).items.at(0)); o.text = v.at(2).items.at(0).s; return o; }));
+    {
+        ClassEntry e; e.name = "Hash"; e.fieldNames = { "algorithm", "hash" };
+        auto tv = [vBytes](const QXmppHash &h) { return Vals { int(h.algorithm()) == 0 ? vO(false) : vO(true, quint64(int(h.algorithm()) - 1)), vBytes(h.hash()) }; };
+        e.run = [tv](const QDomElement &el, QByteArray &out, Vals &vals) { QXmppHash h; if (!h.parse(el)) return false; out = ser(h); vals = tv(h); return true; };
+        e.build = [tv](const Vals &v, Vals &rep) { QXmppHash h; h.setAlgorithm(QXmpp::HashAlgorithm(v.at(0).has ? int(v.at(0).n) + 1 : 0)); h.setHash(v.at(1).s.toLatin1()); rep = tv(h); return ser(h); };
+        t.push_back(e);
+    }
+    // ---- plain value classes with void parse()
+    auto plain = [&t](const std::string &name, std::vector<std::string> fields, auto tv, auto fv) {
+        using T = decltype(fv(Vals {}));
+        ClassEntry e; e.name = name; e.fieldNames = fields;
+        e.run = [tv](const QDomElement &el, QByteArray &out, Vals &vals) { T o; o.parse(el); out = ser(o); vals = tv(o); return true; };
+        e.build = [fv, tv](const Vals &v, Vals &rep) { T o = fv(v); rep = tv(o); return ser(o); };
+        t.push_back(e);
+    };
+    plain("MixInvitation", { "inviterJid", "inviteeJid", "channelJid", "token" },
+        [](const QXmppMixInvitation &o) { return Vals { vR({ vS(o.inviterJid()) }), vR({ vS(o.inviteeJid()) }), vR({ vS(o.channelJid()) }), vR({ vS(o.token()) }) }; },
+        [](const Vals &v) { QXmppMixInvitation o; o.setInviterJid(v.at(0).items.at(0).s); o.setInviteeJid(v.at(1).items.at(0).s); o.setChannelJid(v.at(2).items.at(0).s); o.setToken(v.at(3).items.at(0).s); return o; });
+    plain("OutOfBandUrl", { "url", "description" },
+        [](const QXmppOutOfBandUrl &o) { return Vals { vR({ vS(o.url()) }), o.description() ? vR({ vS(*o.description()) }) : vA() }; },
+        [](const Vals &v) { QXmppOutOfBandUrl o; o.setUrl(v.at(0).items.at(0).s); if (v.at(1).kind == 'R') o.setDescription(v.at(1).items.at(0).s); return o; });
+    plain("PubSubAffiliation", { "type", "node", "jid" },
+        [](const QXmppPubSubAffiliation &o) { return Vals { vN(quint64(int(o.type()))), vS(o.node()), vS(o.jid()) }; },
+        [](const Vals &v) { return QXmppPubSubAffiliation(QXmppPubSubAffiliation::Affiliation(int(v.at(0).n)), v.at(1).s, v.at(2).s); });
+    plain("SdpParameter", { "name", "value" },
+        [](const QXmppSdpParameter &o) { return Vals { vS(o.name()), vS(o.value()) }; },
+        [](const Vals &v) { QXmppSdpParameter o; o.setName(v.at(0).s); o.setValue(v.at(1).s); return o; });
+    plain("RtpFeedbackInterval", { "value" },
+        [](const QXmppJingleRtpFeedbackInterval &o) { return Vals { vN(o.value()) }; },
+        [](const Vals &v) { QXmppJingleRtpFeedbackInterval o; o.setValue(quint32(v.at(0).n)); return o; });
+    auto keyList = [vBytes](const QList<QByteArray> &l) { Vals items; for (auto &b : l) items.push_back(vR({ vBytes(b) })); return vL(items); };
+    auto keyListOf = [](const Val &l) { QList<QByteArray> o; for (auto &it : l.items) o.append(it.items.at(0).s.toLatin1()); return o; };
+    auto ownerVals = [keyList](const QXmppTrustMessageKeyOwner &o) { return Vals { vS(o.jid()), keyList(o.trustedKeys()), keyList(o.distrustedKeys()) }; };
+    auto ownerOf = [keyListOf](const Vals &v) { QXmppTrustMessageKeyOwner o; o.setJid(v.at(0).s); o.setTrustedKeys(keyListOf(v.at(1))); o.setDistrustedKeys(keyListOf(v.at(2))); return o; };
+    plain("TrustMessageKeyOwner", { "jid", "trustedKeys", "distrustedKeys" }, ownerVals, ownerOf);
+    plain("TrustMessageElement", { "usage", "encryption", "keyOwners" },
+        [ownerVals](const QXmppTrustMessageElement &o) { Vals items; for (auto &k : o.keyOwners()) items.push_back(vR(ownerVals(k))); return Vals { vS(o.usage()), vS(o.encryption()), vL(items) }; },
+        [ownerOf](const Vals &v) { QXmppTrustMessageElement o; o.setUsage(v.at(0).s); o.setEncryption(v.at(1).s); for (auto &it : v.at(2).items) o.addKeyOwner(ownerOf(it.items)); return o; });
+    {
+        using M = QXmppStreamFeatures::Mode;
+        auto vMode = [](M m) { return m == QXmppStreamFeatures::Disabled ? vA() : vR({ m == QXmppStreamFeatures::Required ? vR({}) : vA() }); };
+        auto modeOf = [](const Val &v) { return v.kind != 'R' ? QXmppStreamFeatures::Disabled : v.items.at(0).kind == 'R' ? QXmppStreamFeatures::Required : QXmppStreamFeatures::Enabled; };
+        auto qsl = [](const QStringList &l) { Vals items; for (auto &s : l) items.push_back(vR({ vS(s) })); return vR({ vL(items) }); };
+        auto qslOf = [](const Val &w) { QStringList o; for (auto &it : w.items.at(0).items) o << it.items.at(0).s; return o; };
+        plain("StreamFeatures", { "bindMode", "sessionMode", "nonSaslAuthMode", "tlsMode", "streamManagementMode", "clientStateIndicationMode",
+                                  "registerMode", "preApprovedSubscriptionsSupported", "rosterVersioningSupported", "compressionMethods",
+                                  "authMechanisms", "sasl2Feature" },
+            [=](const QXmppStreamFeatures &o) {
+                return Vals { vMode(o.bindMode()), vMode(o.sessionMode()), vMode(o.nonSaslAuthMode()), vMode(o.tlsMode()), vMode(o.streamManagementMode()),
+                              vMode(o.clientStateIndicationMode()), vMode(o.registerMode()),
+                              o.preApprovedSubscriptionsSupported() ? vR({}) : vA(), o.rosterVersioningSupported() ? vR({}) : vA(),
+                              qsl(o.compressionMethods()), qsl(o.authMechanisms()),
+                              o.sasl2Feature() ? vR(sasl2FeatureVals(*o.sasl2Feature())) : vA() };
+            },
+            [=](const Vals &v) {
+                QXmppStreamFeatures o;
+                o.setBindMode(modeOf(v.at(0))); o.setSessionMode(modeOf(v.at(1))); o.setNonSaslAuthMode(modeOf(v.at(2))); o.setTlsMode(modeOf(v.at(3)));
+                o.setStreamManagementMode(modeOf(v.at(4))); o.setClientStateIndicationMode(modeOf(v.at(5))); o.setRegisterMode(modeOf(v.at(6)));
+                o.setPreApprovedSubscriptionsSupported(v.at(7).kind == 'R'); o.setRosterVersioningSupported(v.at(8).kind == 'R');
+                o.setCompressionMethods(qslOf(v.at(9))); o.setAuthMechanisms(qslOf(v.at(10)));
+                if (v.at(11).kind == 'R') o.setSasl2Feature(sasl2FeatureOf(v.at(11).items));
+                return o;
+            });
+        t.back().streamChild = true;
+    }
     return t;
 }
 
 // parse `xml` the way qxmpp receives it and run the real class on it
 static bool runReal(const ClassEntry &c, const QByteArray &xml, QByteArray &out, Vals &vals, bool &wellFormed)
 {
-    QByteArray text = c.iqPayload ? QByteArray("<iq xmlns=\"jabber:client\">") + xml + "</iq>" : xml;
+    QByteArray text = c.iqPayload ? QByteArray("<iq xmlns=\"jabber:client\">") + xml + "</iq>"
+        : c.streamChild ? QByteArray("<stream:stream xmlns=\"jabber:client\" xmlns:stream=\"http://etherx.jabber.org/streams\">") + xml + "</stream:stream>"
+                        : xml;
     QDomDocument doc;
     wellFormed = doc.setContent(text, true);
     if (!wellFormed) return false;
+    if (c.streamChild) {
+        auto el = doc.documentElement().firstChildElement();
+        if (el.isNull()) { wellFormed = false; return false; }
+        return c.run(el, out, vals);
+    }
     return c.run(doc.documentElement(), out, vals);
 }
 
@@ -448,6 +549,9 @@ static const char *VALUE_POOL[] = { "", "true", "1", "0", "false", "TRUE", " tru
     "18446744073709551615", "18446744073709551616", "99999999999999999999999999", "1 2", "1e3", "0x10", "1,000", "\xE2\x88\x92" "5", "\xEF\xBC\x91\xEF\xBC\x92",
     "\xE3\x80\x80" "7 ", "\t7\n", "<&>\"'", "]]>", "a\r\nb", "\xF0\x9F\x98\x80", "item-not-found" };
 #define POOL(p, rng) QString::fromUtf8(p[(rng).below(sizeof(p) / sizeof(p[0]))])
+// half of the garbled values are near-valid spellings of booleans / small numbers / enum names
+static const char *NEAR_POOL[] = { "1", "true", "0", "false", "01", "+1", " 1", "True", "2", "65536", "not-authorized", "aborted", "sha-256", "member" };
+static QString garbleValue(Rng &rng) { return rng.coin() ? POOL(NEAR_POOL, rng) : POOL(VALUE_POOL, rng); }
 
 static void collect(Tree &t, std::vector<Tree *> &els) { if (t.isText) return; els.push_back(&t); for (auto &k : t.kids) collect(k, els); }
 static bool hasAttr(const Tree &t, const QString &n) { for (auto &a : t.attrs) if (a.first == n) return true; return false; }
@@ -470,7 +574,7 @@ static bool mutate(Tree &root, int kind, Rng &rng)
     case M_ATTR_GARBLE: {
         std::vector<Tree *> c; for (auto *x : els) if (!x->attrs.empty()) c.push_back(x);
         if (c.empty()) return false;
-        e = c[rng.below(c.size())]; e->attrs[rng.below(e->attrs.size())].second = POOL(VALUE_POOL, rng); return true; }
+        e = c[rng.below(c.size())]; e->attrs[rng.below(e->attrs.size())].second = garbleValue(rng); return true; }
     case M_ATTR_RENAME: {
         std::vector<Tree *> c; for (auto *x : els) if (!x->attrs.empty()) c.push_back(x);
         if (c.empty()) return false;
@@ -480,7 +584,7 @@ static bool mutate(Tree &root, int kind, Rng &rng)
     case M_ATTR_ADD: {
         QString n = POOL(ATTR_POOL, rng);
         if (hasAttr(*e, n)) return false;
-        e->attrs.emplace_back(n, POOL(VALUE_POOL, rng)); return true; }
+        e->attrs.emplace_back(n, garbleValue(rng)); return true; }
     case M_CHILD_DELETE: {
         std::vector<Tree *> c; for (auto *x : els) if (!x->kids.empty()) c.push_back(x);
         if (c.empty()) return false;
@@ -604,22 +708,26 @@ int main(int argc, char **argv)
             if (i == 256 || fullDoc[k].empty()) fullDoc[k] = treeText;
             std::string what = "gen" + std::to_string(i);
 
-            // (a) object built from the values with the real setters: real toXml vs model encode; C01 field oracle
-            QByteArray own = c.build(v);
+            // (a) object built from the values with the real setters: real toXml vs model encode; C01 field oracle.
+            // `set` = what the object reports after the setters ran (a setter may normalise, e.g. to a bare JID).
+            Vals set;
+            QByteArray own = c.build(v, set);
+            std::string setText = showVals(set);
+            if (setText != valText) stat("values_normalised_by_setters");
             std::string ownCanon = canonWriter(own);
-            corr("codec-enc " + c.name + " " + valText, ownCanon);
+            corr("codec-enc " + c.name + " " + setText, ownCanon);
             stat("values");
-            if (hasBlank(v)) stat("oracle_skipped_blank_string");
+            if (hasBlank(set)) stat("oracle_skipped_blank_string");
             else {
                 QByteArray out; Vals back; bool wf = false;
                 bool acc = runReal(c, own, out, back, wf);
-                if (!wf) oracleFail("C01:own-output-not-wellformed:" + c.name, valText);
-                else if (!acc) oracleFail("C01:own-output-rejected:" + c.name, valText);
+                if (!wf) oracleFail("C01:own-output-not-wellformed:" + c.name, setText);
+                else if (!acc) oracleFail("C01:own-output-rejected:" + c.name, setText);
                 else {
-                    std::string p = diffPath(v, back, &c.fieldNames);
-                    if (!p.empty()) oracleFail("C01:field-mismatch:" + c.name + ":" + p, valText + " -> " + showVals(back));
+                    std::string p = diffPath(set, back, &c.fieldNames);
+                    if (!p.empty()) oracleFail("C01:field-mismatch:" + c.name + ":" + p, setText + " -> " + showVals(back));
                     else oraclePass()++;
-                    if (canonWriter(out) != ownCanon) oracleFail("C01:own-form-roundtrip:" + c.name, valText);
+                    if (canonWriter(out) != ownCanon) oracleFail("C01:own-form-roundtrip:" + c.name, setText);
                     else oraclePass()++;
                 }
             }
